@@ -19,10 +19,13 @@ from ..explore import Chooser, explore
 
 from aioslsk.network.network import Network
 from aioslsk.events import (
-    EventBus, MessageReceivedEvent, SearchRequestRemovedEvent, SearchRequestSentEvent, SearchResultEvent)
+    EventBus, MessageReceivedEvent, SearchRequestRemovedEvent, SearchRequestSentEvent, SearchResultEvent,
+    SessionDestroyedEvent, SessionInitializedEvent)
 from aioslsk.search.manager import SearchManager
 from aioslsk.tasks import Timer
-from aioslsk.protocol.messages import PeerSearchReply, WishlistInterval
+from aioslsk.protocol.messages import Login, PeerSearchReply, WishlistInterval
+from aioslsk.session import Session
+from aioslsk.user.model import User
 
 PROPERTY = 'C18'
 LEVEL = 'model_checking'
@@ -135,6 +138,24 @@ def run_one(params: dict, chooser, deviations=True) -> dict:
         manager = SearchManager(settings, bus, None, None, network)
         world.keep.append(manager)
         obs = Obs(world, bus)
+        if params.get('slow'):
+            # a listener of the application that takes a few iterations (user code may await in its listeners)
+            async def slow_sent_listener(event):
+                await asyncio.sleep(0)
+                await asyncio.sleep(0)
+                await asyncio.sleep(0)
+                await asyncio.sleep(float(params.get('slow_for', 0)))
+            world.keep.append(slow_sent_listener)
+            bus.register(SearchRequestSentEvent, slow_sent_listener)
+        sessions = [0]
+
+        async def new_session():
+            # the server connection was lost and a new logon succeeded: managers are told through these two events
+            if sessions[0]:
+                await bus.emit(SessionDestroyedEvent(sessions[0]))
+            sessions[0] = Session(User('me'), '10.0.0.1', 'hi', 157, 100)
+            await bus.emit(SessionInitializedEvent(sessions[0], Login.Response(
+                success=True, greeting='hi', ip='10.0.0.1', md5hash='x' * 32, privileged=False)))
         if params.get('wrap'):
             next(manager._ticket_generator)
             _set_generator_counter(manager._ticket_generator, 0xFFFFFFFE)
@@ -171,8 +192,11 @@ def run_one(params: dict, chooser, deviations=True) -> dict:
                         req = await manager.search_user('bob', 'query')
                     return req.ticket
                 world.op('u', f'{n}{kind}', do_search)
-            elif kind == 'X':
+            elif kind == 'L':
+                world.op('u', f'{n}L', new_session, record=False)
+            elif kind in 'XY':
                 i = int(op[1])
+                thread = 'u' if kind == 'X' else 'v'      # Y: from another task of the application, concurrently
 
                 async def do_remove(i=i):
                     if len(obs.sent) <= i:
@@ -184,7 +208,7 @@ def run_one(params: dict, chooser, deviations=True) -> dict:
                     obs.user_removed(ticket)
                     world.log('user-removed', ticket)
                     return 'removed'
-                world.op('u', f'{n}X{i}', do_remove)
+                world.op(thread, f'{n}{kind}{i}', do_remove, guard=(lambda i=i: len(obs.sent) > i) if kind == 'Y' else None)
             elif kind == 'P':
                 i = None if op[1] == '?' else int(op[1])
                 fire, guard = make_reply(i)
@@ -376,6 +400,15 @@ def scenarios(tier: str):
             out.append({'kind': 'search', 'rt': rt, 'wt': wt, 'ops': seq})
     for seq in (['S', 'S', 'S', 'P0', 'P1'], ['S', 'S', 'S', 'X0', 'P2', 'P0']):
         out.append({'kind': 'search', 'rt': 5, 'wt': -1, 'ops': seq, 'wrap': True})
+    # a new session (logon after a server loss) between searches
+    for seq in (['L', 'S', 'L', 'S'], ['S', 'L', 'S', 'P0'], ['S', 'L', 'S', 'P1'], ['L', 'S', 'S', 'L', 'S', 'P0'],
+                ['S', 'L', 'S', 'X1', 'P0'], ['S', 'L', 'S', 'T5'], ['W', 'L', 'S', 'P0'], ['L', 'S', 'T5', 'L', 'S']):
+        for rt in (0, 5):
+            out.append({'kind': 'search', 'rt': rt, 'wt': -1 if 'W' not in seq else 3, 'ops': seq})
+    # removal from another task while search() is still announcing the request to (slow) listeners
+    for seq in (['S', 'Y0'], ['S', 'Y0', 'T5'], ['S', 'S', 'Y1', 'P1'], ['S', 'Y0', 'P0'], ['S', 'Y0', 'S', 'P1']):
+        out.append({'kind': 'search', 'rt': 5, 'wt': -1, 'ops': seq, 'slow': True})
+        out.append({'kind': 'search', 'rt': 5, 'wt': -1, 'ops': seq, 'slow': True, 'slow_for': 1.0})
     # timer sequences, chunked by first two ops
     maxlen = 5 if tier == 'quick' else 7
     for a in TIMER_OPS:
